@@ -79,7 +79,7 @@ def random_case(rng, tier):
         o["mnemonics_header"] = True
     if rng.random() < 0.3:
         o["data_section_header"] = rng.choice(["~A", "~ASCII Log Data", "~ASCII"])
-    return {"n": n, "r": rng.choice([1, 2, 3, 5, 12, 30]), "opts": o, "engine": rng.choice(["numpy", "normal"]),
+    return {"n": n, "r": rng.choice([1, 2, 3, 5, 12, 20, 21, 22, 30]), "opts": o, "engine": rng.choice(["numpy", "normal"]),
             "values": rng.choice(["plain", "wide", "wide", "halfway", "ints", "nearnull"]), "nan": rng.choice([0, 0, 0.2, 0.6]),
             "null": rng.choice([-999.25, -9999, 0, 999.25, 2147483647, -9999999.25, 99999999999, 3.4028235e+38]), "seed": rng.randrange(10 ** 9)}
 
